@@ -190,6 +190,8 @@ def calling_fails(ctx, case):
     rng = __import__('random').Random(case.get('seed', 0))
     dom = T[case['fn']][0]
     xs = np.array([case['x']] + [gen_x(rng, dom) for _ in range(2)], dtype=float)
+    if case.get('xs') is not None:
+        xs = np.array(case['xs'], dtype=float)
     n = case['n']
     try:
         with np.errstate(all='ignore'):
@@ -367,6 +369,7 @@ def run(ctx):
             case['n'] = n_
             if name == 'clip':
                 case['x'] = [0.25, 0.9, -0.7][n_]
+                case['xs'] = [0.25, 0.9, -0.7, -0.5, 0.75]       # inside, above, below, and the two bounds, at every order
             cc = dict(case, calling=True, seed=ctx.rng.randrange(1 << 30))
             ctx.evaluations += 1
             ctx.count('calling-systematic')
